@@ -5,7 +5,7 @@ from __future__ import annotations
 import ast
 
 from ..cfg import CFG
-from ..execmodel import R, run_execute
+from ..execmodel import R, run_execute, sget, sset, sowner, sowners
 from ..values import Const, Str, Sym, tagof
 from .c03 import rule_after_accept, rule_coherence, rule_guards
 from .common import site_loc, text_of, traces
@@ -91,7 +91,7 @@ def rule_sqlstate(ctx):
                 if not tr.hooks.parsed:
                     continue  # undefined-variable path: C07.e
                 n += 1
-                st = tr.cur.attrs.get(R().sqlstate)
+                st = sget(tr.cur, "sqlstate")
                 if mode is None:
                     ok = tr.path.outcome == "return" and isinstance(st, Const) and st.v is None
                     ctx.ob("C07.b", f"{kind}: sqlstate reset by a successful execute", ok, loc, tagof(st))
@@ -114,7 +114,7 @@ def rule_sqlstate(ctx):
                 if not tr.hooks.parsed:
                     continue
                 n += 1
-                st = tr.cur.attrs.get(R().sqlstate)
+                st = sget(tr.cur, "sqlstate")
                 if mode is None:
                     ok = isinstance(st, Const) and st.v is None  # (what the metadata conversion does with the rows is C06's)
                     what = "reset by a successful describe()"
@@ -133,7 +133,7 @@ def rule_sqlstate(ctx):
         if tr.path.outcome != "return":
             continue
         n += 1
-        st = tr.cur.attrs.get(R().sqlstate)
+        st = sget(tr.cur, "sqlstate")
         ok = isinstance(st, Const) and st.v is None
         ctx.ob("C07.b", f"sqlstate reset by a successful execute with nop_regexes configured (parsed={tr.hooks.parsed})", ok, loc, tagof(st))
         if not ok:
